@@ -29,7 +29,7 @@ from .. import Undecided
 from ..expr import canon, unparse, call_name
 from ..model import stmt_text
 from .. import drivers as D
-from ..lts import Classifier, extract, equivalent, compile_spec, seq, alt, star, lit
+from ..lts import Classifier, extract, compare, compile_spec, seq, alt, star, lit
 
 EXPLANATION = __doc__
 LEVEL_RULE = 'one obligation per (driver | handler | format site | clause); distinct = distinct (rule, function, construct)'
@@ -129,8 +129,11 @@ def check_packet_unpack(ctx, rule):
         except Undecided as e:
             ctx.undecided(rule, fi, label, str(e), fi.node.lineno)
             continue
-        diff = equivalent(code, compile_spec(_unpack_spec(silent)))
-        if diff is None:
+        cmp_ = compare(code, compile_spec(_unpack_spec(silent)))
+        diff = cmp_[1:] if cmp_[0] == 'differs' else None
+        if cmp_[0] == 'foreign':
+            ctx.undecided(rule, fi, label, 'Packet.unpack does things the documented behaviour does not speak about (%s): its event language cannot be compared' % ', '.join(cmp_[1][:4]), fi.node.lineno)
+        elif diff is None:
             ctx.holds(rule, fi, label, 'non-bytes -> ValueError; parse with the caller\'s raw and offset; %s' % ('every failure returns None' if silent else 'failures propagate, a PacketError carries the packet'), fi.node.lineno)
         else:
             trace, which = diff
